@@ -955,6 +955,11 @@ func genG1(seed uint64, prop string) *Scenario {
 		case x < pFlush+pHandover:
 			sess++
 			sc.Steps = append(sc.Steps, Step{T: "handover", Sess: sess, A: g.pick(2)})
+			if g.chance(1, 3) {
+				// a new client numbers its operations from 1 again (as every fluent client does): ids of the previous
+				// session's operations - possibly still held - come round again
+				g.nextID = 1
+			}
 		default:
 			if g.chance(1, 8) && len(g.nis) > 1 {
 				// cross-instance reference, flush of only the group's instance, group re-created, deletes attempted
